@@ -4,7 +4,7 @@ confirm in the scratch worktree, run the listed quick checks against /repo with 
 import sys, os, json, shutil, subprocess, re
 prop, letter, needs = sys.argv[1:4]
 checks = sys.argv[4:]
-wt = f"/tmp/mut/{prop}"
+wt = os.environ.get("MUT_WT") or f"/tmp/mut/{prop}"
 conf = subprocess.run(["/verif/tools/confirm_mutant.sh", wt, letter], capture_output=True, text=True).stdout.strip().splitlines()[-1]
 print(conf)
 ok = re.search(r"baseline-with-mutant: \d+ passed 0 failed", conf) and "demo-with-mutant: test result: FAILED" in conf and "demo-without: test result: ok" in conf
